@@ -325,6 +325,7 @@ CHECKS["C13"] = {
         H("c13.VH_listener", {"CONNS": 2, "L": 3}, {"CONNS": 3, "L": 3}, covers=["delivered and read", "consumed or rejected", "closed"], weight=3, **_envonly),
         H("c13.VH_listener", {"params": {"CONNS": 2, "L": 2}, "preempt": 1}, {"params": {"CONNS": 2, "L": 3}, "preempt": 2}, variant="preempt", covers=["delivered and read", "closed"], weight=5, **_envonly),
         H("c13.VH_listener_wrap", {"CONNS": 2, "L": 3}, {"CONNS": 2, "L": 4}, covers=["handler consumed the buffered bytes and wrapped", "delivered and read", "delivered after a handler consumed bytes"], weight=4, **_envonly),
+        H("c13.VH_listener_wrap", {"CONNS": 2, "L": 3, "TLS": 1}, {"CONNS": 2, "L": 4, "TLS": 1}, variant="tls-state", covers=["TLS state exposed", "delivered and read"], weight=4, **_envonly),
         H("c13.VH_listener", {"CONNS": 2, "L": 2, "NOREAD": 1}, {"CONNS": 3, "L": 3, "NOREAD": 1}, variant="noread", covers=["delivered and read", "closed"], weight=1, **_envonly),
         # a handler that wraps the connection before reading (tee, metering wrappers): the stream continues once, in order
         H("c01.VH_wrap_step", {}, {}, covers=["unread bytes at Wrap time", "read past the bytes buffered at Wrap time"]),
@@ -333,9 +334,9 @@ CHECKS["C13"] = {
         H("c13.VH_close_pending", {"params": {"CONNS": 2}, "preempt": 1}, {"params": {"CONNS": 3}, "preempt": 2}, variant="preempt", covers=["closed with pending connections"], weight=2, **_envonly),
     ],
     "level_text": "bounded model checking of the real WrapListener / listener.loop / handle / Accept / Close / pipeConnection / listenerHandler in the engine's goroutine mode (cooperative schedules exhaustively, plus 1-2 pre-emptions at channel/sync operations): 2-3 connections with symbolic streams and segmentation, one content-dependent terminal route; every connection that falls through is delivered by Accept exactly once and reads its own client's stream from the first byte although matching buffers are pooled, connections consumed or rejected by layer4 are never delivered and are closed, after Close Accept reports closure and every pending connection is either delivered or closed, and nothing stays blocked (deadlock = violation)",
-    "level_note": "scripted base listener (yields the connections, then blocks until closed); the consumer accepts after the handlers ran (slow consumer) or, with pre-emption, in between; TLS connection state hand-over (tlsConnection) is not exercised; sync.Pool returns the most recently pooled buffer (LIFO) - the adversarial 'any pooled buffer' mode is used in the thorough tier; not natively replayable",
+    "level_note": "scripted base listener (yields the connections, then blocks until closed); the consumer accepts after the handlers ran (slow consumer) or, with pre-emption, in between; the TLS connection state hand-over (tlsConnection) is exercised with a handler that records connection states the way the tls handler does - no TLS handshake is executed; sync.Pool returns the most recently pooled buffer (LIFO) - the adversarial 'any pooled buffer' mode is used in the thorough tier; not natively replayable",
     "assumptions": ["scripted base listener and client connections", "sync.Pool model: Get returns the last Put object, or New()"],
-    "outside": ["more than 3 connections", "TLS termination before hand-over", "more than 2 pre-emptions"],
+    "outside": ["more than 3 connections", "a real TLS handshake/decryption before hand-over (crypto/tls is not encoded)", "more than 2 pre-emptions"],
     "bounds": {"quick": "2 connections, streams <= 3 bytes, <= 1 pre-emption", "thorough": "3 connections, <= 2 pre-emptions"},
 }
 CHECKS["C08"] = {
